@@ -63,6 +63,20 @@ D1 == A("decimal", "1")   E1 == A("double", "1")    F1 == A("float", "1")
 SA == A("string", "a")    SB == A("string", "b")    UA == A("anyURI", "a")    TA == A("untypedAtomic", "a")
 EN == A("double", "NaN")  FN == A("float", "NaN")   EI == A("double", "INF")  FI == A("float", "INF")
 BT == A("boolean", "true") BF == A("boolean", "false")
+(* numeric keys whose types do NOT all hold the same mathematical value (op:same-key compares exactly,
+   eq / deep-equal on atoms would promote and round).  TLC integers are 32-bit: the values are symbolic,
+   the binding renders the lexical forms (9007199254740993, 9007199254740992e0, 0.1, 0.1e0, ...).
+     2^53+1 as xs:integer and xs:decimal;  2^53 as xs:integer and as the xs:double that 2^53+1 rounds to;
+     0.1 as xs:decimal (exactly 1/10) and as xs:double (the binary fraction nearest to 1/10);
+     0.5 in the three types (a dyadic fraction: the same value in every type).
+   xs:float('0.1') is left out: the single-precision rounding of xs:float is outside this property
+   (spec/Numeric.tla lists it as implementation-defined; the library keeps xs:float in a double). *)
+IB1 == A("integer", "9007199254740993")   DB1 == A("decimal", "9007199254740993")
+IB0 == A("integer", "9007199254740992")   EB0 == A("double", "9007199254740992")
+D01 == A("decimal", "0.1")   E01 == A("double", "0.1")
+D05 == A("decimal", "0.5")   E05 == A("double", "0.5")   F05 == A("float", "0.5")
+Hole == A("var", "x")      \* the variable $x in a constructor template (Batch)
+KeysX == {IB1, DB1, IB0, EB0, D01, E01, D05, E05, F05, I1, E1}
 DT == A("date", "2020-01-01")  QA == A("QName", "a")
 
 Keys13 == {I1, D1, E1, F1, SA, UA, TA, EN, FN, EI, BT, DT, QA}     \* the alphabet named by the property
@@ -81,10 +95,15 @@ LexInt(x) == CASE x = "0" -> 0 [] x = "1" -> 1 [] x = "2" -> 2 [] x = "3" -> 3 [
 IntA(n) == A("integer", IntLex(n))
 Bool(b) == IF b THEN BT ELSE BF
 
-(* mathematical value of a numeric atom *)
-NumVal(k) == IF k.x = "NaN" THEN [c |-> "nan", n |-> 0]
-             ELSE IF k.x = "INF" THEN [c |-> "inf", n |-> 0]
-             ELSE [c |-> "fin", n |-> LexInt(k.x)]
+(* the EXACT mathematical value of a numeric atom, as a name: lexical forms are canonical decimal
+   numerals, so equal numerals = equal values, except that an xs:double / xs:float written with a
+   numeral that is not a binary fraction holds the nearest binary fraction of ITS precision, which
+   is a third value.  (The engine cross-checks this table against python fractions.) *)
+NonBinaryNumerals == {"0.1"}
+ExactName(k) == IF k.x \in NonBinaryNumerals /\ k.a \in {"double", "float"} THEN k.a \o ":" \o k.x ELSE k.x
+NumVal(k) == IF k.x = "NaN" THEN [c |-> "nan", n |-> ""]
+             ELSE IF k.x = "INF" THEN [c |-> "inf", n |-> ""]
+             ELSE [c |-> "fin", n |-> ExactName(k)]
 
 (* F&O 3.1 17.1.1 op:same-key:                                                        *)
 (*  - xs:string / xs:anyURI / xs:untypedAtomic: fn:codepoint-equal                     *)
@@ -99,8 +118,9 @@ SameKey(k1, k2) ==
   ELSE k1.a = k2.a /\ k1.x = k2.x
 
 (* fn:deep-equal on atoms: ($a eq $b) or both NaN; eq promotes untypedAtomic and anyURI to
-   string and numerics to a common type.  On this alphabet every finite numeric is exactly
-   representable in all four numeric types, so the two relations coincide. *)
+   string and numerics to a common type.  For the numerics that occur as VALUES (1, 2, counts, NaN, INF)
+   every finite one is exactly representable in all four numeric types, so the two relations coincide;
+   the atoms of KeysX (2^53+1, 0.1) are used as KEYS only, where op:same-key is the rule. *)
 AtomDeepEq(a1, a2) == SameKey(a1, a2)
 
 ---------------------------------------------------------------------------
@@ -309,6 +329,8 @@ Keys7 == {I1, D1, SA, TA, EN, FN, BT}     \* one or two representatives of every
    "cons"     map and array constructors (duplicate keys: XQDY0137)
    "deq"      fn:deep-equal on all pairs of a universe of values
    "mixed" / "mixed1"  a map and an array together (values extracted from one another, nested containers)
+   "keysx" / "mergex"  the same with the keys of KeysX (exact comparison of numeric keys across types)
+   "batch"    functions and lookups applied directly to constructor expressions, once per binding of $x
    "selftest" the in-place variant (InPlace = TRUE) that TLC must reject
    Lite = TRUE shrinks the parameter sets for histories of length 2 and 3. *)
 MapSeedsVals ==
@@ -327,12 +349,16 @@ DeqUniverse ==
    <<M1(I1, <<EN>>)>>, <<M2(I1, V1, SA, V2)>>, <<M2(SA, V2, I1, V1)>>, <<M2(I1, V1, SA, V1)>>,
    <<Ar(<<V1>>)>>, <<Ar(<<<<D1>>>>)>>, <<Ar(<<<<BT>>>>)>>, <<Ar(<<V12>>)>>, <<Ar(<<V1, V2>>)>>, <<Ar(<<V2, V1>>)>>,
    <<Ar(<<VE>>)>>, <<Ar(<<<<EN>>>>)>>, <<Ar(<<<<FN>>>>)>>, <<Ar(<<VA>>)>>, <<Ar(<<<<Ar(<<V1, VE>>)>>>>)>>, <<Ar(<<VM>>)>>,
+   <<M1(IB1, V1)>>, <<M1(EB0, V1)>>, <<M1(IB0, V1)>>, <<M1(D01, V1)>>, <<M1(E01, V1)>>, <<M1(D05, V1)>>, <<M1(E05, V1)>>,
    <<M0, I1>>, <<M0, I2>>, <<EmptyArr, I1>>, <<EmptyArr, I2>>, <<I1, M0>>, <<NestedMap, NestedMap>>}
 
 Seeds ==
   CASE Profile = "keys"     -> {S1(M0)} \cup {S1(M1(k, V1)) : k \in KeysExt}
     [] Profile = "keys13"   -> {S1(M0)} \cup {S1(M1(k, V1)) : k \in Keys13}
     [] Profile = "keys7"    -> {S1(M0)} \cup {S1(M1(k, V1)) : k \in Keys7}
+    [] Profile = "keysx"    -> {S1(M1(k, V1)) : k \in KeysX} \cup {S1(M2(IB1, V1, I2, V2)), S1(M2(D01, V1, EB0, V2))}
+    [] Profile = "mergex"   -> {S2(M1(k1, V1), M1(k2, V2)) : k1, k2 \in KeysX}
+    [] Profile = "batch"    -> {<<>>}
     [] Profile = "merge"    -> {S2(M1(k1, V1), M1(k2, V2)) : k1, k2 \in KeysExt}
     [] Profile = "merge13"  -> {S2(M1(k1, V1), M1(k2, V2)) : k1, k2 \in Keys13}
     [] Profile = "mapvals"  -> {S1(mm) : mm \in MapSeedsVals}
@@ -341,19 +367,21 @@ Seeds ==
     [] Profile = "arrays2"  -> {S1(Ar(<<V1>>)), S1(Ar(<<VE, VA>>))}
     [] Profile = "cons"     -> {<<>>}
     [] Profile = "deq"      -> {<<Val(u), Val(w)>> : u, w \in DeqUniverse}
-    [] Profile = "mixed"    -> {S2(M2(I1, V1, SA, VA), Ar(<<V1, VM>>)), S2(M1(EN, V12), Ar(<<VE, V12, VA>>)),
-                                S2(M2(D1, VM, TA, VE), EmptyArr)}
+    [] Profile = "mixed"    -> {S2(M2(I1, V1, SA, VA), Ar(<<V1, VM>>)), S2(M1(EN, V12), Ar(<<VE, V12, VA>>))}
+                               \cup (IF Lite THEN {} ELSE {S2(M2(D1, VM, TA, VE), EmptyArr)})
     [] Profile = "mixed1"   -> {S2(M1(I1, VA), Ar(<<V1, VM>>))}
     [] Profile = "selftest" -> {S1(Ar(<<V1, V2>>))}
-NSeed == CASE Profile \in {"merge", "merge13", "deq", "mixed", "mixed1"} -> 2 [] Profile = "cons" -> 0 [] OTHER -> 1
+NSeed == CASE Profile \in {"merge", "merge13", "mergex", "deq", "mixed", "mixed1"} -> 2
+           [] Profile \in {"cons", "batch"} -> 0 [] OTHER -> 1
 
 MapActs == {"MapPut", "MapRemove", "MapGet", "MapContains", "MapSize", "MapKeys", "MapFind", "MapForEach",
             "MapMerge", "MapEntry", "Lookup", "DeepEqual"}
 ArrActs == {"ArrGet", "ArrPut", "ArrAppend", "ArrSubarray", "ArrRemove", "ArrInsertBefore", "ArrHead", "ArrTail",
             "ArrReverse", "ArrJoin", "ArrFlatten", "ArrForEach", "ArrFilter", "ArrFold", "ArrSize", "Lookup", "DeepEqual"}
 Acts ==
-  CASE Profile \in {"keys", "keys13", "keys7"} -> {"MapPut", "MapRemove", "MapGet", "MapContains", "MapSize", "MapKeys", "MapFind", "Lookup"}
-    [] Profile \in {"merge", "merge13"} -> {"MapMerge", "DeepEqual"}
+  CASE Profile \in {"keys", "keys13", "keys7", "keysx"} -> {"MapPut", "MapRemove", "MapGet", "MapContains", "MapSize", "MapKeys", "MapFind", "Lookup"}
+    [] Profile \in {"merge", "merge13", "mergex"} -> {"MapMerge", "DeepEqual"}
+    [] Profile = "batch"    -> {"Batch"}
     [] Profile = "mapvals"  -> MapActs
     [] Profile \in {"arrays", "arrays3", "arrays2"} -> ArrActs
     [] Profile = "cons"     -> {"MapCons", "ArrCons"}
@@ -363,9 +391,10 @@ Acts ==
 On(name) == name \in Acts
 
 PKeys == CASE Profile = "keys" -> KeysExt [] Profile = "keys13" -> Keys13 [] Profile = "keys7" -> Keys7
+           [] Profile = "keysx" -> KeysX
            [] Profile = "mixed" -> (IF Lite THEN {I1, D1, EN} ELSE {I1, D1, SA, EN})
            [] Profile = "mixed1" -> {I1, D1} [] OTHER -> SmallKeys
-PVals == CASE Profile \in {"keys", "keys13", "keys7"} -> {V2}
+PVals == CASE Profile \in {"keys", "keys13", "keys7", "keysx"} -> {V2}
            [] Profile = "selftest" -> {V12}
            [] Profile = "mixed1" -> {VA}
            [] Lite -> {V2, VA}
@@ -382,11 +411,20 @@ LookupSpecs == IF Lite THEN {<<"name", "a">>, <<"int", 0>>, <<"int", 1>>, <<"int
                     \cup {<<"paren", k>> : k \in PKeys}
 ConsKeys == KeysExt
 ConsEntrySeqs ==
+  {<<E(k1, V1), E(k2, V2)>> : k1, k2 \in KeysX} \cup
   {<<>>} \cup {<<E(k, V1)>> : k \in ConsKeys} \cup {<<E(k1, V1), E(k2, V2)>> : k1, k2 \in ConsKeys}
   \cup {<<E(k1, V1), E(k2, VE), E(k3, V12)>> : k1 \in {I1, SA, EN}, k2 \in Keys13, k3 \in {D1, UA, FN, BT, I2}}
 ConsMemberSeqs ==
   {<<>>} \cup {<<v>> : v \in Vals6} \cup {<<v, w>> : v, w \in Vals6} \cup {<<V1, V12, VE>>, <<VM, VA, V2>>}
 ConsCurlyVals == {<<>>, V1, V12, <<I1, NestedArr, I2>>, <<NestedMap, NestedArr>>, <<SA, I1, I1>>}
+
+(* batch grid: constructor templates with the hole $x as value, inside a sequence, as key, as member *)
+VH == <<Hole>>
+MapTmpls == {M1(SA, VH), M1(I1, VH), M2(SA, VH, SB, <<Hole, Hole>>), M2(I1, V2, SA, VH), M1(Hole, V1), M2(Hole, V1, SB, VH)}
+ArrTmpls == {Ar(<<VH>>), Ar(<<VH, V2>>), Ar(<<V1, <<Hole, Hole>>, VH>>), Ar(<<<<Ar(<<VH>>)>>, VE>>)}
+BatchXs  == {<<I1, I2, I3>>, <<SA, I1, SA>>}
+BKeys    == {SA, SB, I1, D1, I2}
+BLookups == {<<"name", "a">>, <<"name", "b">>, <<"int", 1>>, <<"int", 2>>, <<"star">>, <<"paren", SA>>, <<"paren", I1>>, <<"paren", D1>>}
 
 ---------------------------------------------------------------------------
 (* the machine *)
@@ -406,48 +444,95 @@ Do(res) == Open /\ store' = Append(store, res)
 (* self-test variant: the array is updated in place and the same (aliased) array is returned *)
 DoArrUpdate(h, res) == IF InPlace /\ ~IsErr(res) THEN Open /\ store' = Append([store EXCEPT ![h] = res], res) ELSE Do(res)
 
+(* the result of ONE function / lookup applied to ONE map or array item `it` with parameters p;
+   used by the handle actions below and by Batch (the same function on a constructor expression) *)
+OpResult(act, it, p) ==
+  CASE act = "MapPut"       -> Val(<<Put(it, p[1], p[2])>>)
+    [] act = "MapRemove"    -> Val(<<RemoveKeys(it, p[1])>>)
+    [] act = "MapGet"       -> Val(Get(it, p[1]))
+    [] act = "MapContains"  -> Val(<<Bool(HasKey(it, p[1]))>>)
+    [] act = "MapSize"      -> Val(<<IntA(Size(it))>>)
+    [] act = "MapKeys"      -> Bag(KeysOf(it))
+    [] act = "MapForEachA"  -> Bag(MapForEach(it, p[1]))
+    [] act = "MapFind"      -> [v |-> <<Ar(FindV(<<it>>, p[1]))>>, bag |-> "members"]
+    [] act = "ArrGet"       -> AGet(it, p[1])
+    [] act = "ArrPut"       -> APut(it, p[1], p[2])
+    [] act = "ArrAppend"    -> AAppend(it, p[1])
+    [] act = "ArrSubarray2" -> ASub2(it, p[1])
+    [] act = "ArrSubarray3" -> ASub3(it, p[1], p[2])
+    [] act = "ArrRemove"    -> ARemove(it, p[1])
+    [] act = "ArrInsertBefore" -> AInsert(it, p[1], p[2])
+    [] act = "ArrHead"      -> AHead(it)
+    [] act = "ArrTail"      -> ATail(it)
+    [] act = "ArrReverse"   -> AReverse(it)
+    [] act = "ArrFlatten"   -> Val(FlatV(<<it>>))
+    [] act = "ArrForEach"   -> AForEach(it, p[1])
+    [] act = "ArrFilter"    -> AFilter(it, p[1])
+    [] act = "ArrFold"      -> AFold(it, p[1])
+    [] act = "ArrSize"      -> Val(<<IntA(ASize(it))>>)
+    [] act = "Lookup"       -> LookupItem(it, p[1])
+
 MapConsA(ents)     == On("MapCons") /\ Do(MapCons(ents))
-MapPut(h, k, v)    == On("MapPut") /\ h \in MapHs /\ Do(Val(<<Put(MV(h), k, v)>>))
-MapRemove(h, ks)   == On("MapRemove") /\ h \in MapHs /\ Do(Val(<<RemoveKeys(MV(h), ks)>>))
-MapGet(h, k)       == On("MapGet") /\ h \in MapHs /\ Do(Val(Get(MV(h), k)))
-MapContains(h, k)  == On("MapContains") /\ h \in MapHs /\ Do(Val(<<Bool(HasKey(MV(h), k))>>))
-MapSize(h)         == On("MapSize") /\ h \in MapHs /\ Do(Val(<<IntA(Size(MV(h)))>>))
-MapKeys(h)         == On("MapKeys") /\ h \in MapHs /\ Do(Bag(KeysOf(MV(h))))
+MapPut(h, k, v)    == On("MapPut") /\ h \in MapHs /\ Do(OpResult("MapPut", MV(h), <<k, v>>))
+MapRemove(h, ks)   == On("MapRemove") /\ h \in MapHs /\ Do(OpResult("MapRemove", MV(h), <<ks>>))
+MapGet(h, k)       == On("MapGet") /\ h \in MapHs /\ Do(OpResult("MapGet", MV(h), <<k>>))
+MapContains(h, k)  == On("MapContains") /\ h \in MapHs /\ Do(OpResult("MapContains", MV(h), <<k>>))
+MapSize(h)         == On("MapSize") /\ h \in MapHs /\ Do(OpResult("MapSize", MV(h), <<>>))
+MapKeys(h)         == On("MapKeys") /\ h \in MapHs /\ Do(OpResult("MapKeys", MV(h), <<>>))
 MapEntry(k, v)     == On("MapEntry") /\ Do(Val(<<M1(k, v)>>))
-MapForEachA(h, f)  == On("MapForEach") /\ h \in MapHs /\ Do(Bag(MapForEach(MV(h), f)))
-MapFind(h, k)      == On("MapFind") /\ h \in MapHs /\ Do([v |-> <<Ar(FindV(store[h].v, k))>>, bag |-> "members"])
+MapForEachA(h, f)  == On("MapForEach") /\ h \in MapHs /\ Do(OpResult("MapForEachA", MV(h), <<f>>))
+MapFind(h, k)      == On("MapFind") /\ h \in MapHs /\ Do(OpResult("MapFind", MV(h), <<k>>))
 MapMerge(hs, p)    == On("MapMerge") /\ (\A i \in 1..Len(hs) : hs[i] \in MapHs) /\ \E res \in MergeResults([i \in 1..Len(hs) |-> MV(hs[i])], p) : Do(res)
 
 ArrConsSquare(ms)  == On("ArrCons") /\ Do(ArrSquare(ms))
 ArrConsCurly(val)  == On("ArrCons") /\ Do(ArrCurly(val))
-ArrGet(h, i)       == On("ArrGet") /\ h \in ArrHs /\ Do(AGet(MV(h), i))
-ArrPut(h, i, v)    == On("ArrPut") /\ h \in ArrHs /\ DoArrUpdate(h, APut(MV(h), i, v))
-ArrAppend(h, v)    == On("ArrAppend") /\ h \in ArrHs /\ DoArrUpdate(h, AAppend(MV(h), v))
-ArrSubarray2(h, s) == On("ArrSubarray") /\ h \in ArrHs /\ Do(ASub2(MV(h), s))
-ArrSubarray3(h, s, l) == On("ArrSubarray") /\ h \in ArrHs /\ Do(ASub3(MV(h), s, l))
-ArrRemove(h, ps)   == On("ArrRemove") /\ h \in ArrHs /\ Do(ARemove(MV(h), ps))
-ArrInsertBefore(h, i, v) == On("ArrInsertBefore") /\ h \in ArrHs /\ DoArrUpdate(h, AInsert(MV(h), i, v))
-ArrHead(h)         == On("ArrHead") /\ h \in ArrHs /\ Do(AHead(MV(h)))
-ArrTail(h)         == On("ArrTail") /\ h \in ArrHs /\ Do(ATail(MV(h)))
-ArrReverse(h)      == On("ArrReverse") /\ h \in ArrHs /\ Do(AReverse(MV(h)))
+ArrGet(h, i)       == On("ArrGet") /\ h \in ArrHs /\ Do(OpResult("ArrGet", MV(h), <<i>>))
+ArrPut(h, i, v)    == On("ArrPut") /\ h \in ArrHs /\ DoArrUpdate(h, OpResult("ArrPut", MV(h), <<i, v>>))
+ArrAppend(h, v)    == On("ArrAppend") /\ h \in ArrHs /\ DoArrUpdate(h, OpResult("ArrAppend", MV(h), <<v>>))
+ArrSubarray2(h, s) == On("ArrSubarray") /\ h \in ArrHs /\ Do(OpResult("ArrSubarray2", MV(h), <<s>>))
+ArrSubarray3(h, s, l) == On("ArrSubarray") /\ h \in ArrHs /\ Do(OpResult("ArrSubarray3", MV(h), <<s, l>>))
+ArrRemove(h, ps)   == On("ArrRemove") /\ h \in ArrHs /\ Do(OpResult("ArrRemove", MV(h), <<ps>>))
+ArrInsertBefore(h, i, v) == On("ArrInsertBefore") /\ h \in ArrHs /\ DoArrUpdate(h, OpResult("ArrInsertBefore", MV(h), <<i, v>>))
+ArrHead(h)         == On("ArrHead") /\ h \in ArrHs /\ Do(OpResult("ArrHead", MV(h), <<>>))
+ArrTail(h)         == On("ArrTail") /\ h \in ArrHs /\ Do(OpResult("ArrTail", MV(h), <<>>))
+ArrReverse(h)      == On("ArrReverse") /\ h \in ArrHs /\ Do(OpResult("ArrReverse", MV(h), <<>>))
 ArrJoin(hs)        == On("ArrJoin") /\ (\A i \in 1..Len(hs) : hs[i] \in ArrHs) /\ Do(AJoin([i \in 1..Len(hs) |-> MV(hs[i])]))
-ArrFlatten(h)      == On("ArrFlatten") /\ h \in ArrHs /\ Do(Val(FlatV(store[h].v)))
-ArrForEach(h, f)   == On("ArrForEach") /\ h \in ArrHs /\ Do(AForEach(MV(h), f))
-ArrFilter(h, p)    == On("ArrFilter") /\ h \in ArrHs /\ Do(AFilter(MV(h), p))
-ArrFold(h, f)      == On("ArrFold") /\ h \in ArrHs /\ Do(AFold(MV(h), f))
-ArrSize(h)         == On("ArrSize") /\ h \in ArrHs /\ Do(Val(<<IntA(ASize(MV(h)))>>))
+ArrFlatten(h)      == On("ArrFlatten") /\ h \in ArrHs /\ Do(OpResult("ArrFlatten", MV(h), <<>>))
+ArrForEach(h, f)   == On("ArrForEach") /\ h \in ArrHs /\ Do(OpResult("ArrForEach", MV(h), <<f>>))
+ArrFilter(h, p)    == On("ArrFilter") /\ h \in ArrHs /\ Do(OpResult("ArrFilter", MV(h), <<p>>))
+ArrFold(h, f)      == On("ArrFold") /\ h \in ArrHs /\ Do(OpResult("ArrFold", MV(h), <<f>>))
+ArrSize(h)         == On("ArrSize") /\ h \in ArrHs /\ Do(OpResult("ArrSize", MV(h), <<>>))
 
-Lookup(h, ks)      == On("Lookup") /\ h \in MapHs \cup ArrHs /\ Do(LookupItem(MV(h), ks))
+Lookup(h, ks)      == On("Lookup") /\ h \in MapHs \cup ArrHs /\ Do(OpResult("Lookup", MV(h), <<ks>>))
+
+(* BATCH: a function / lookup applied DIRECTLY TO A CONSTRUCTOR EXPRESSION whose entries depend on the
+   dynamic context, evaluated once per binding of $x:   for $x in xs return OP( map{'a': $x} )
+   The value of a constructor is a function of the current binding only (the expression has no
+   memory): the i-th result is OP of the template filled with xs[i].  The result is the array of
+   the per-binding results (member i = result for xs[i]); the first error wins. *)
+RECURSIVE FillV(_, _)
+FillI(it, x) == IF IsAtom(it) THEN (IF it = Hole THEN x ELSE it)
+                ELSE IF IsMap(it) THEN Mp([j \in 1..Len(it.m) |-> E(IF it.m[j].k = Hole THEN x ELSE it.m[j].k, FillV(it.m[j].v, x))])
+                ELSE Ar([j \in 1..Len(it.r) |-> FillV(it.r[j], x)])
+FillV(val, x) == [i \in 1..Len(val) |-> FillI(val[i], x)]
+BatchResult(act, tmpl, p, xs) ==
+  LET rs  == [i \in 1..Len(xs) |-> OpResult(act, FillI(tmpl, xs[i]), p)]
+      bad == {i \in 1..Len(xs) : IsErr(rs[i])} IN
+  IF bad # {} THEN rs[CHOOSE i \in bad : \A j \in bad : i <= j]
+  ELSE IF \E i \in 1..Len(xs) : "bag" \in DOMAIN rs[i]
+       THEN [v |-> <<Ar([i \in 1..Len(xs) |-> rs[i].v])>>, bag |-> "inner"]   \* order inside a member is free
+       ELSE Val(<<Ar([i \in 1..Len(xs) |-> rs[i].v])>>)
+Batch(act, tmpl, p, xs) == On("Batch") /\ Do(BatchResult(act, tmpl, p, xs))
 DeepEqual(h1, h2)  == On("DeepEqual") /\ h1 \in ValHs /\ h2 \in ValHs /\ Do(Val(<<Bool(DeepEq(store[h1].v, store[h2].v))>>))
 
 (* the bound sets of Next are state-independent (TLC then labels every edge with the action and
    its parameters); the guards h \in MapHs / ArrHs select the live handles of the right kind *)
 MaxH == NSeed + Depth
 Handles == 1..MaxH
-HSeqs == IF Profile \in {"merge", "merge13"} THEN {<<1, 2>>, <<2, 1>>}
+HSeqs == IF Profile \in {"merge", "merge13", "mergex"} THEN {<<1, 2>>, <<2, 1>>}
          ELSE {<<h>> : h \in Handles} \cup {<<h1, h2>> : h1, h2 \in Handles}
               \cup (IF Profile = "mapvals" THEN {<<h, g, h>> : h, g \in 1..2} ELSE {})
-DeqPairs == IF Profile \in {"merge", "merge13", "deq"} THEN {<<1, 2>>} ELSE Handles \X Handles
+DeqPairs == IF Profile \in {"merge", "merge13", "mergex", "deq"} THEN {<<1, 2>>} ELSE Handles \X Handles
 
 Next ==
      \/ \E ents \in ConsEntrySeqs : MapConsA(ents)
@@ -481,6 +566,21 @@ Next ==
      \/ \E h \in Handles : ArrSize(h)
      \/ \E h \in Handles, ks \in LookupSpecs : Lookup(h, ks)
      \/ \E pr \in DeqPairs : DeepEqual(pr[1], pr[2])
+     \/ \E t \in MapTmpls \cup ArrTmpls, ks \in BLookups, xs \in BatchXs : Batch("Lookup", t, <<ks>>, xs)
+     \/ \E a \in {"MapGet", "MapContains", "MapFind"}, t \in MapTmpls, k \in BKeys, xs \in BatchXs : Batch(a, t, <<k>>, xs)
+     \/ \E t \in MapTmpls, k \in BKeys, xs \in BatchXs : Batch("MapRemove", t, <<<<k>>>>, xs)
+     \/ \E t \in MapTmpls, k \in {SA, I2}, v \in {V2, VA}, xs \in BatchXs : Batch("MapPut", t, <<k, v>>, xs)
+     \/ \E a \in {"MapSize", "MapKeys"}, t \in MapTmpls, xs \in BatchXs : Batch(a, t, <<>>, xs)
+     \/ \E t \in MapTmpls, f \in {"entry", "kc"}, xs \in BatchXs : Batch("MapForEachA", t, <<f>>, xs)
+     \/ \E a \in {"ArrGet", "ArrSubarray2"}, t \in ArrTmpls, i \in 1..2, xs \in BatchXs : Batch(a, t, <<i>>, xs)
+     \/ \E a \in {"ArrPut", "ArrInsertBefore"}, t \in ArrTmpls, xs \in BatchXs : Batch(a, t, <<1, V2>>, xs)
+     \/ \E t \in ArrTmpls, v \in {V2, VE}, xs \in BatchXs : Batch("ArrAppend", t, <<v>>, xs)
+     \/ \E t \in ArrTmpls, xs \in BatchXs : Batch("ArrSubarray3", t, <<1, 1>>, xs)
+     \/ \E t \in ArrTmpls, xs \in BatchXs : Batch("ArrRemove", t, <<<<1>>>>, xs)
+     \/ \E a \in {"ArrHead", "ArrTail", "ArrReverse", "ArrFlatten", "ArrSize"}, t \in ArrTmpls, xs \in BatchXs : Batch(a, t, <<>>, xs)
+     \/ \E t \in ArrTmpls, f \in {"count", "dup", "wrap"}, xs \in BatchXs : Batch("ArrForEach", t, <<f>>, xs)
+     \/ \E t \in ArrTmpls, f \in {"nonempty", "single"}, xs \in BatchXs : Batch("ArrFilter", t, <<f>>, xs)
+     \/ \E t \in ArrTmpls, f \in {"cat", "cnt", "last", "rcat", "rlast"}, xs \in BatchXs : Batch("ArrFold", t, <<f>>, xs)
 
 Init == store \in Seeds
 Spec == Init /\ [][Next]_vars
@@ -647,8 +747,15 @@ SameKeyLaws ==
   /\ ~SameKey(BT, I1) /\ ~SameKey(BF, I0) /\ ~SameKey(QA, SA) /\ ~SameKey(SA, SB) /\ ~SameKey(I1, I2)
   /\ ~SameKey(EN, EI) /\ ~SameKey(DT, SA) /\ ~SameKey(I1, SA)
   /\ Cardinality({{k2 \in Keys13 : SameKey(k, k2)} : k \in Keys13}) = 7  \* 13 keys, 7 classes
+  /\ \A k \in KeysX : SameKey(k, k)
+  /\ \A k1, k2 \in KeysX : SameKey(k1, k2) <=> SameKey(k2, k1)
+  /\ \A k1, k2, k3 \in KeysX : (SameKey(k1, k2) /\ SameKey(k2, k3)) => SameKey(k1, k3)
+  /\ SameKey(IB1, DB1) /\ SameKey(IB0, EB0) /\ ~SameKey(IB1, EB0) /\ ~SameKey(DB1, EB0) /\ ~SameKey(IB1, IB0)
+  /\ ~SameKey(D01, E01) /\ ~SameKey(D01, D05) /\ ~SameKey(E01, E05)       \* no promotion, no rounding
+  /\ SameKey(D05, E05) /\ SameKey(E05, F05) /\ SameKey(D05, F05)
+  /\ Cardinality({{k2 \in KeysX : SameKey(k, k2)} : k \in KeysX}) = 6
 ASSUME SameKeyLaws
-ASSUME Profile = "deq" => DeqUniverseLaws     \* 44^3 triples: once, in the run that uses the universe
+ASSUME Profile = "deq" => DeqUniverseLaws     \* 51^3 triples: once, in the run that uses the universe
 
 (* LawsOfMap / LawsOfArr quantify over the whole parameter grid, i.e. over every out-edge of the
    state; they are therefore evaluated in the states that are expanded (the leaves of the bounded
@@ -656,5 +763,5 @@ ASSUME Profile = "deq" => DeqUniverseLaws     \* 44^3 triples: once, in the run 
 Expanded == Len(store) - NSeed < Depth
 Laws == /\ WellFormed /\ DeepEqLaws
         /\ (Expanded /\ Profile # "deq") => PairLaws /\ ArrLaws
-        /\ (Expanded /\ Profile \notin {"deq", "merge", "merge13"}) => MapLaws   \* single-entry maps: see the keys profiles
+        /\ (Expanded /\ Profile \notin {"deq", "merge", "merge13", "mergex"}) => MapLaws   \* single-entry maps: see the keys profiles
 =============================================================================
